@@ -89,6 +89,14 @@ def run(chk):
         for kw in ("says", "said", "say"):
             cases.append({"src": f"Tommy {kw} {t}\nsay Tommy\nsay \"next\"\n", "meta": {"string": t, "kw": kw}})
             cases.append({"src": f"Tommy {kw} {t}", "meta": {"string": t, "kw": kw, "eof": True}})
+    for first in ("without", "minus", "Without", "MINUS", "-", "- ", "without -", "minus minus", "with", "plus"):
+        for second in ("7", "100", "0.5", "007", "1e3", "seven", "7 times over", "100 degrees", ".5", "5.", "-7"):
+            for head in ("X is ", "X was ", "X's ", "rock X like ", "rock X with "):
+                cases.append({"src": f"put 1 into X\n{head}{first} {second}\nsay X\nsay X at 0\n", "meta": {"minus-number": first + " " + second}})
+    # what follows `says`: exactly one space, then the text (other white space is not a separator)
+    for sep in ("\u00a0", "\u2003", "\t", "  ", "", "\u00a0 ", " \u00a0", "\u3000x", "é", "\r"):
+        for kw in ("says", "said", "say"):
+            cases.append({"src": f"Tommy {kw}{sep}hello world\nsay Tommy\n", "meta": {"says-separator": sep}})
     recs = execsuite.run(chk, cases, "poetic", suite_name="EXEC-poetic")
     known_finding_f12(chk)
     bad = 0
